@@ -2,9 +2,19 @@
 """tools/seed-prepare.py Cnn [Cnn...]: creates /tmp/seed-Cnn/{wt (worktree of /repo HEAD), out/, TASK.md}."""
 import json, os, subprocess, sys
 props = {json.loads(l)["id"]: json.loads(l) for l in open("/verif/properties.jsonl") if l.strip()}
-for i in sys.argv[1:]:
+for arg in sys.argv[1:]:
+    i, _, suffix = arg.partition(":")
     p = props[i]
-    d = f"/tmp/seed-{i}"
+    d = f"/tmp/seed-{i}{suffix}"
+    avoid = ""
+    if suffix:
+        prev = []
+        import glob
+        for mp in sorted(glob.glob(f"/verif/seeded/{i}-*/meta.json")):
+            m = json.load(open(mp))
+            prev.append("* " + m.get("summary", "") + " (needs: " + m.get("needs", "") + ")")
+        if prev:
+            avoid = "\n## Already taken\n\nEarlier workers already delivered the following change(s) for this property; yours must use a DIFFERENT mechanism, in a different function (ideally a different file), breaking a different clause or a different part of the input/schedule space:\n\n" + "\n".join(prev) + "\n"
     subprocess.run(["git", "-C", "/repo", "worktree", "remove", "--force", d + "/wt"], capture_output=True)
     subprocess.run(["rm", "-rf", d]); os.makedirs(d + "/out")
     subprocess.run(["git", "-C", "/repo", "worktree", "add", "--detach", "-q", d + "/wt", "HEAD"], check=True)
@@ -23,6 +33,7 @@ GOSUMDB=off). The machine is shared: give every `go test` an explicit `-timeout`
 
 It is meant to hold for: {p['quantifier']['text']}
 
+{avoid}
 ## What to produce
 
 A change to the library (a patch to files under `{d}/wt`, NOT to test files) that **breaks this property while the
